@@ -125,7 +125,7 @@ func runC19(w *World, r *Report, tier string) {
 		r.Check(attemptExpr == att, "R1", "xmpp.(*backoff).durationForAttempt#depends-on-parameter", w.pos(fn.Pos()), "the attempt parameter is never read: the exponent is the receiver's mutable counter ("+attemptExpr+"), so the stateless per-attempt query returns the same delay for every n (durationForAttempt(0) == durationForAttempt(5))", "exponent is the parameter")
 	}
 	// setDefault is called before the fields are read
-	sd := w.callsIn(fn, "xmpp.backoff.setDefault")
+	sd := w.callsInH(fn, "xmpp.backoff.setDefault")
 	okSD := len(sd) == 1
 	if okSD {
 		allInstrs(fn, func(in ssa.Instruction) {
@@ -184,7 +184,7 @@ func runC19(w *World, r *Report, tier string) {
 	}
 	r.Check(okDu, "R1", "xmpp.(*backoff).duration", w.pos(du.Pos()), detail, "d := durationForAttempt(b.attempt); b.attempt++; return d")
 	wt := w.Func("xmpp.(*backoff).wait")
-	sl := w.callsIn(wt, "time.Sleep")
+	sl := w.callsInH(wt, "time.Sleep")
 	okW := len(sl) == 1 && w.isResultOf(sl[0].Common().Args[0], 0, "xmpp.backoff.duration")
 	r.Check(okW, "R1", "xmpp.(*backoff).wait", w.pos(wt.Pos()), "wait() does not sleep for duration()", "time.Sleep(b.duration())")
 	// who else writes the counter
